@@ -4,10 +4,11 @@ import itertools
 
 PROP = "C11"
 AREAS = ["kmer", "segment"]
-THEOREMS = ["sort_instance_ok", "singletons_exact", "duplicates_exact", "splitters_subset_singletons",
-            "singletons_duplicates_disjoint", "invariant_under_permutation", "invariant_under_revcomp",
-            "kmer_multiset_revcomp", "picks_spaced", "interior_spacing",
-            "remove_non_singletons_spec", "with_duplicates_same_kept", "find_candidate_kmers_multi_spec"]
+THEOREMS = ["sort_instance_ok", "singletons_exact", "duplicates_exact", "sets_strictly_increasing",
+            "splitters_subset_singletons", "singletons_duplicates_disjoint", "invariant_under_permutation",
+            "kmer_multiset_revcomp", "invariant_under_revcomp", "interior_spacing",
+            "remove_non_singletons_spec", "with_duplicates_same_kept", "find_candidate_kmers_multi_spec",
+            "skip_empty_same"]
 RULE = ("cases: spl k segment_size threads contigs (reference = contigs of numeric codes 0..15,30; the harness writes "
         "ref.fa and a PanSN file whose first sample is the reference, reads them with GenomeIO and runs "
         "determine_splitters in a local rayon pool of <threads> threads, determine_splitters_streaming and "
@@ -226,10 +227,10 @@ def gen_cases(rng, tier):
     ]
     if tier == "quick":
         cs += gen_exhaustive(6, 2)
-        nrand, budget = 700, 900
+        nrand, budget = 600, 900
     else:
         cs += gen_exhaustive(8, 3)
-        nrand, budget = 12000, 1500
+        nrand, budget = 8000, 1500
     for _ in range(nrand):
         cs.append(rand_case(rng, budget))
     for _ in range(nrand // 4):
